@@ -320,7 +320,7 @@ def get_interpolated_now_frame(
         else:
             after_frame = ground_truth_frame
             dt_after = -diff_time
-        if before_frame is not None and after_frame is not None:
+            # NOTE: frames are ordered by time, the first later frame is the closest one
             break
 
     # disable frame if time difference is too large
